@@ -336,6 +336,23 @@ pub fn history(index: u64, mut rng: Rng, tier: Tier, focus: &str) -> Outcome {
                 let (r, _, sr) = settle(v, &caller, &ids);
                 if let Some(sr) = &sr {
                     o.add("settlements_seen", sr.settlements.len() as u64);
+                    // a deal settled at or after its end leaves the market in that very call (collateral
+                    // released, proposal and state removed), whatever its price
+                    let st_after: fil_actor_market::State = state(v, &MKT).unwrap();
+                    let proposals = fil_actor_market::DealArray::load(&st_after.proposals, v.store.as_ref()).unwrap();
+                    let ok_ids: Vec<u64> = sr.results.successes(&ids.iter().map(|x| *x as u64).collect::<Vec<_>>()).into_iter().cloned().collect();
+                    for id in &ok_ids {
+                        if let Some(k) = reg.deals.get(id)
+                            && k.activated.is_some()
+                            && k.terminated_at.is_none()
+                            && epoch >= k.proposal.end_epoch
+                        {
+                            o.count("settlements_at_or_after_end_checked");
+                            if proposals.get(*id).unwrap().is_some() {
+                                o.violate("completion", "C07/settled_after_end_but_not_completed", format!("step {step}: deal {id} (price {}, end {}) was settled successfully at epoch {epoch} but is still in the market: its collateral stays locked", k.proposal.storage_price_per_epoch, k.proposal.end_epoch));
+                            }
+                        }
+                    }
                 }
                 desc = format!("Settle {:?} by {caller} -> {}", ids, r.code);
             }
